@@ -1,4 +1,4 @@
-import AfkakProofs.Consumer.Inv3
+import AfkakProofs.Consumer.Inv2
 /-!
 # Frame facts: what `stop()`'s later phases and the re-entrant API leave alone
 
@@ -7,186 +7,191 @@ import AfkakProofs.Consumer.Inv3
 namespace Afkak.Proofs.Consumer
 open Afkak.Consumer Afkak.Monitor Afkak.Consts
 
-theorem retryFetch_keeps (cfg : Cfg) (a : Option Rat) (s : St) : Keeps s (retryFetch cfg a s) := by
-  unfold Keeps retryFetch emit; grind
-theorem handleFetchError_keeps (cfg : Cfg) (f : Fail) (s : St) : Keeps s (handleFetchError cfg f s) := by
-  unfold handleFetchError
+theorem retryFetch_keeps0 (cfg : Cfg) (a : Option Rat) (s : St) : Keeps0 s (retryFetch cfg a s) := by
+  unfold Keeps0 retryFetch emit; grind
+theorem handleFetchError_keeps0 (cfg : Cfg) (f : Fail) (s : St) : Keeps0 s (handleFetchError cfg f s) := by
+  unfold handleFetchError fetchErrorTail
   simp only []
   repeat' split
   all_goals first
     | exact ⟨rfl, rfl, rfl, Iff.rfl⟩
-    | exact Keeps.trans (b := { s with requestD := .none }) ⟨rfl, rfl, rfl, Iff.rfl⟩ (startErrback_keeps _ _)
-    | exact Keeps.trans (b := { s with requestD := .none }) ⟨rfl, rfl, rfl, Iff.rfl⟩ (retryFetch_keeps _ _ _)
-    | exact Keeps.trans (b := { s with requestD := .none, fetchOffset := cfg.reset.getD s.fetchOffset }) ⟨rfl, rfl, rfl, Iff.rfl⟩ (startErrback_keeps _ _)
-    | exact Keeps.trans (b := { s with requestD := .none, fetchOffset := cfg.reset.getD s.fetchOffset }) ⟨rfl, rfl, rfl, Iff.rfl⟩ (retryFetch_keeps _ _ _)
-theorem handleOffsetError_keeps (cfg : Cfg) (f : Fail) (s : St) : Keeps s (handleOffsetError cfg f s) := by
-  unfold handleOffsetError
+    | exact Keeps0.trans (b := { s with requestD := .none }) ⟨rfl, rfl, rfl, Iff.rfl⟩ (startErrback_keeps _ _).to0
+    | exact Keeps0.trans (b := { s with requestD := .none }) ⟨rfl, rfl, rfl, Iff.rfl⟩ (retryFetch_keeps0 _ _ _)
+    | exact Keeps0.trans (b := { s with requestD := .none, fetchOffset := cfg.reset.getD s.fetchOffset }) ⟨rfl, rfl, rfl, Iff.rfl⟩ (startErrback_keeps _ _).to0
+    | exact Keeps0.trans (b := { s with requestD := .none, fetchOffset := cfg.reset.getD s.fetchOffset }) ⟨rfl, rfl, rfl, Iff.rfl⟩ (retryFetch_keeps0 _ _ _)
+theorem handleOffsetError_keeps0 (cfg : Cfg) (f : Fail) (s : St) : Keeps0 s (handleOffsetError cfg f s) := by
+  unfold handleOffsetError offsetErrorTail
   simp only []
   repeat' split
   all_goals first
     | exact ⟨rfl, rfl, rfl, Iff.rfl⟩
-    | exact Keeps.trans (b := { s with requestD := .none }) ⟨rfl, rfl, rfl, Iff.rfl⟩ (startErrback_keeps _ _)
-    | exact Keeps.trans (b := { s with requestD := .none }) ⟨rfl, rfl, rfl, Iff.rfl⟩ (retryFetch_keeps _ _ _)
-theorem stopReq_keeps (cfg : Cfg) (s : St) : Keeps s (stopReq cfg s) := by
+    | exact Keeps0.trans (b := { s with requestD := .none }) ⟨rfl, rfl, rfl, Iff.rfl⟩ (startErrback_keeps _ _).to0
+    | exact Keeps0.trans (b := { s with requestD := .none }) ⟨rfl, rfl, rfl, Iff.rfl⟩ (retryFetch_keeps0 _ _ _)
+theorem stopReq_keeps0 (cfg : Cfg) (s : St) : Keeps0 s (stopReq cfg s) := by
   unfold stopReq
   split
   · simp only []
     rename_i k kind c _
-    have h1 : Keeps s { emit (.cancelReq k) s with requestD := .pending k kind true } := ⟨rfl, rfl, rfl, Iff.rfl⟩
+    have h1 : Keeps0 s { emit (.cancelReq k) s with requestD := .pending k kind true } := ⟨rfl, rfl, rfl, Iff.rfl⟩
     split
     · split
-      · exact Keeps.trans h1 (handleFetchError_keeps _ _ _)
-      · exact Keeps.trans h1 (handleOffsetError_keeps _ _ _)
+      · exact Keeps0.trans h1 (handleFetchError_keeps0 _ _ _)
+      · exact Keeps0.trans h1 (handleOffsetError_keeps0 _ _ _)
     · exact h1
-  · exact Keeps.refl s
+  · exact Keeps0.refl s
 
-/-- `h` preserves "no generator is suspended" -/
-def PN (h : St → St) : Prop := ∀ s, s.proc = none → (h s).proc = none
+/-- A predicate that only looks at what `Keeps` preserves (and implies that no generator is suspended). -/
+structure QOk (Q : St → Prop) : Prop where
+  keeps : ∀ s s', Keeps s s' → Q s → Q s'
+  procNone : ∀ s, Q s → s.proc = none
 
-theorem PN.of_keeps {h : St → St} (hk : ∀ s, Keeps s (h s)) : PN h := fun s hp => (hk s).1.trans hp
+/-- no generator is suspended and no refetch is scheduled -/
+def Quiet (s : St) : Prop := s.proc = none ∧ retryPending s.retryCall = false
 
-structure OpsPN (inner : Ops) : Prop where
-  stop : PN inner.stop
-  stopCore : PN inner.stopCore
-  commit : PN inner.commit
-  shutdown : PN inner.shutdown
+/-- no generator is suspended and no uncancelled request is outstanding -/
+def CalmR (s : St) : Prop := activeReq s.requestD = none ∧ s.parked = none
 
-theorem crash_pn (site : String) : PN (crash site) := fun _ h => h
-theorem stopRetry_pn : PN stopRetry := by intro s h; unfold stopRetry emit; grind
-theorem stopTimers_pn : PN stopTimers := by intro s h; unfold stopTimers emit; grind
-theorem stopFinish_pn : PN stopFinish := by intro s h; unfold stopFinish crash emit; grind
-theorem commitUser_pn (cfg : Cfg) : PN (commitUser cfg) := by
-  intro s h
-  unfold commitUser
-  simp only []
-  split <;> simp only [emit] <;> exact (commitState_keeps cfg .user s).1.trans h
+/-- no generator is suspended, no uncancelled request is outstanding, no reply is parked -/
+def Calm (s : St) : Prop := s.proc = none ∧ CalmR s
+
+theorem quiet_ok : QOk Quiet :=
+  ⟨fun s s' hk h => ⟨hk.1.trans h.1, by rw [hk.2.2.2.2.1]; exact h.2⟩, fun _ h => h.1⟩
+theorem calm_ok : QOk Calm :=
+  ⟨fun s s' hk h => ⟨hk.1.trans h.1, by rw [hk.2.2.2.2.2.1]; exact h.2.1, hk.2.2.2.2.2.2.trans h.2.2⟩, fun _ h => h.1⟩
+
+theorem CalmR.of_keeps {s s' : St} (hk : Keeps s s') (h : CalmR s) : CalmR s' :=
+  ⟨by rw [hk.2.2.2.2.2.1]; exact h.1, hk.2.2.2.2.2.2.trans h.2⟩
+
+/-- `h` preserves `Q` -/
+def PN (Q : St → Prop) (h : St → St) : Prop := ∀ s, Q s → Q (h s)
+
+structure OpsPN (Q : St → Prop) (inner : Ops) : Prop where
+  stop : PN Q inner.stop
+  stopCore : PN Q inner.stopCore
+  commit : PN Q inner.commit
+  shutdown : PN Q inner.shutdown
 
 section
-variable {cfg : Cfg} {inner : Ops} (hin : OpsPN inner)
+variable {Q : St → Prop} (hq : QOk Q)
+include hq
+
+/-- an explicit update of fields `Keeps` does not mention -/
+theorem QOk.upd {s s' : St} (h : Q s) (hk : Keeps s s') : Q s' := hq.keeps s s' hk h
+
+theorem crash_pn (site : String) : PN Q (crash site) := fun _ h => hq.upd h ⟨rfl, rfl, rfl, Iff.rfl, rfl, rfl, rfl⟩
+theorem stopTimers_pn : PN Q stopTimers := by
+  intro s h
+  refine hq.upd h ?_
+  unfold Keeps stopTimers emit; grind
+theorem commitUser_pn (cfg : Cfg) : PN Q (commitUser cfg) := by
+  intro s h
+  have hc := hq.upd h (commitState_keeps cfg .user s)
+  unfold commitUser
+  simp only []
+  split <;> exact hq.upd hc ⟨rfl, rfl, rfl, Iff.rfl, rfl, rfl, rfl⟩
+
+variable {cfg : Cfg} {inner : Ops} (hin : OpsPN Q inner)
 include hin
 
-theorem nestedStop_pn : PN (nestedStop inner) := by
+theorem nestedStop_pn : PN Q (nestedStop inner) := by
   intro s h
   unfold nestedStop
   repeat' split
-  all_goals first | exact h | exact hin.stopCore s h
+  all_goals first | exact h | exact hin.stopCore s h | exact hq.upd h ⟨rfl, rfl, rfl, Iff.rfl, rfl, rfl, rfl⟩
 
-theorem shutdownFinish_pn (r : Option Fail) : PN (shutdownFinish inner r) := by
+theorem shutdownFinish_pn (r : Option Fail) : PN Q (shutdownFinish inner r) := by
   intro s h
   unfold shutdownFinish
   simp only []
-  have h1 : (nestedStop inner { s with shutdownD := false }).proc = none := nestedStop_pn hin _ h
+  have h1 : Q (nestedStop inner { s with shutdownD := false }) :=
+    nestedStop_pn hq hin _ (hq.upd h ⟨rfl, rfl, rfl, Iff.rfl, rfl, rfl, rfl⟩)
   repeat' split
-  all_goals simp only [crash, emit] <;> exact h1
+  all_goals exact hq.upd h1 ⟨rfl, rfl, rfl, Iff.rfl, rfl, rfl, rfl⟩
 
-theorem commitAndStop_pn : PN (commitAndStop cfg inner) := by
+theorem commitAndStop_pn : PN Q (commitAndStop cfg inner) := by
   intro s h
-  have hc : (commitState cfg .shut s).proc = none := (commitState_keeps cfg .shut s).1.trans h
+  have hc : Q (commitState cfg .shut s) := hq.upd h (commitState_keeps cfg .shut s)
   unfold commitAndStop commitAndStop1
   repeat' split
   all_goals first
-    | exact shutdownFinish_pn hin _ _ h
-    | exact shutdownFinish_pn hin _ _ hc
+    | exact shutdownFinish_pn hq hin _ _ h
+    | exact shutdownFinish_pn hq hin _ _ hc
     | exact hc
 
-theorem shutdownSuccess_pn : PN (shutdownSuccess cfg inner) := by
+theorem shutdownSuccess_pn : PN Q (shutdownSuccess cfg inner) := by
   intro s h
   unfold shutdownSuccess
   split
-  · exact commitAndStop_pn hin _ h
-  · exact shutdownFinish_pn hin _ _ h
+  · exact commitAndStop_pn hq hin _ h
+  · exact shutdownFinish_pn hq hin _ _ h
 
-theorem fireWaiter_pn (r : DRes) (w : Waiter) : PN (fun s => fireWaiter cfg inner r s w) := by
+theorem fireWaiter_pn (r : DRes) (w : Waiter) : PN Q (fun s => fireWaiter cfg inner r s w) := by
   intro s h
   cases w <;> cases r <;> simp only [fireWaiter]
   all_goals first
     | exact h
-    | exact (handleAutoCommitError_keeps _ s).1.trans h
-    | exact (autoCommit_keeps cfg _ s).1.trans h
-    | exact shutdownSuccess_pn hin _ h
-    | exact shutdownFinish_pn hin _ _ h
-    | exact commitAndStop_pn hin _ h
+    | exact hq.upd h (handleAutoCommitError_keeps _ s)
+    | exact hq.upd h (autoCommit_keeps cfg _ s)
+    | exact shutdownSuccess_pn hq hin _ h
+    | exact shutdownFinish_pn hq hin _ _ h
+    | exact commitAndStop_pn hq hin _ h
+    | exact hq.upd h ⟨rfl, rfl, rfl, Iff.rfl, rfl, rfl, rfl⟩
 
-theorem waiters_pn (r : DRes) (ws : List Waiter) : PN (fun s => ws.foldl (fireWaiter cfg inner r) s) := by
+theorem waiters_pn (r : DRes) (ws : List Waiter) : PN Q (fun s => ws.foldl (fireWaiter cfg inner r) s) := by
   induction ws with
   | nil => intro s h; exact h
-  | cons w ws ih => intro s h; simp only [List.foldl_cons]; exact ih _ (fireWaiter_pn hin r w s h)
+  | cons w ws ih => intro s h; simp only [List.foldl_cons]; exact ih _ (fireWaiter_pn hq hin r w s h)
 
-theorem deliver_pn (r : DRes) : PN (deliver cfg inner r) := by
+theorem deliver_pn (r : DRes) : PN Q (deliver cfg inner r) := by
   intro s h
   unfold deliver
-  exact waiters_pn hin r _ _ h
+  exact waiters_pn hq hin r _ _ (hq.upd h ⟨rfl, rfl, rfl, Iff.rfl, rfl, rfl, rfl⟩)
 
-theorem handleCommitError_pn (f : Fail) (d : Rat) (a : Nat) : PN (handleCommitError cfg inner f d a) := by
+theorem handleCommitError_pn (f : Fail) (d : Rat) (a : Nat) : PN Q (handleCommitError cfg inner f d a) := by
   intro s h
   unfold handleCommitError
   repeat' split
   all_goals first
-    | exact deliver_pn hin _ s h
-    | exact h
+    | exact deliver_pn hq hin _ s h
+    | exact hq.upd h ⟨rfl, rfl, rfl, Iff.rfl, rfl, rfl, rfl⟩
 
-theorem cancelWaiters_pn : ∀ (fuel : Nat), PN (cancelWaiters cfg inner fuel) := by
+theorem cancelWaiters_pn : ∀ (fuel : Nat), PN Q (cancelWaiters cfg inner fuel) := by
   intro fuel
   induction fuel with
-  | zero => intro s h; unfold cancelWaiters; split <;> exact h
+  | zero => intro s h; unfold cancelWaiters; split <;> first | exact h | exact hq.upd h ⟨rfl, rfl, rfl, Iff.rfl, rfl, rfl, rfl⟩
   | succ n ih =>
     intro s h
     unfold cancelWaiters
     split
     · exact h
-    · exact ih _ (fireWaiter_pn hin _ _ _ h)
+    · exact ih _ (fireWaiter_pn hq hin _ _ _ (hq.upd h ⟨rfl, rfl, rfl, Iff.rfl, rfl, rfl, rfl⟩))
 
-theorem stopCommitReq_pn : PN (stopCommitReq cfg inner) := by
+theorem stopCommitReq_pn : PN Q (stopCommitReq cfg inner) := by
   intro s h
   unfold stopCommitReq
   split
   · simp only []
     split
-    · exact handleCommitError_pn hin _ _ _ _ h
-    · exact h
+    · exact handleCommitError_pn hq hin _ _ _ _ (hq.upd h ⟨rfl, rfl, rfl, Iff.rfl, rfl, rfl, rfl⟩)
+    · exact hq.upd h ⟨rfl, rfl, rfl, Iff.rfl, rfl, rfl, rfl⟩
   · exact h
+
+omit hin hq in
+theorem stopBlock_proc (s : St) : (stopBlock s).proc = s.proc := by unfold stopBlock; split <;> rfl
 
 omit hin in
-theorem stopBlockProc_pn : PN (stopBlockProc cfg inner) := by
+/-- the block/processor phase of `stop()` when no generator is suspended -/
+theorem stopBlockProc_procNone : ∀ s, Q s → (stopBlockProc cfg inner s).proc = none := by
   intro s h
+  have hp := hq.procNone s h
   unfold stopBlockProc
-  simp only []
-  split
-  · rename_i g hg
-    split at hg <;> simp [h] at hg
-  · split <;> exact h
+  simp only [stopBlock_proc, hp]
 
-theorem stopCore_pn : PN (stopCore cfg inner) := by
-  intro s h
-  unfold stopCore
-  simp only []
-  exact stopFinish_pn _ (stopTimers_pn _ (stopCommitReq_pn hin _ (cancelWaiters_pn hin _ _ (stopRetry_pn _
-    (stopBlockProc_pn _ ((stopReq_keeps cfg _).1.trans h))))))
-
-theorem stop_pn : PN (stop cfg inner) := by
-  intro s h
-  unfold stop
-  split
-  · exact h
-  · exact stopCore_pn hin s h
-
-theorem shutdown_pn : PN (shutdown cfg inner) := by
-  intro s h
-  unfold shutdown
-  split
-  · exact h
-  · split
-    · exact h
-    · simp only [h]
-      exact commitAndStop_pn hin _ rfl
-
-theorem mkOps_pn : OpsPN (mkOps cfg inner) :=
-  ⟨stop_pn hin, stopCore_pn hin, commitUser_pn cfg, shutdown_pn hin⟩
+/-- the phases of `stop()` after the block, the processor and the retry timer have been dealt with -/
+theorem stopTail_pn {s : St} (h : Q s) :
+    Q (stopTimers (stopCommitReq cfg inner (cancelWaiters cfg inner (s.commitDs.length + 4) s))) :=
+  stopTimers_pn hq _ (stopCommitReq_pn hq hin _ (cancelWaiters_pn hq hin _ _ h))
 
 end
-
-theorem opsN_pn (cfg : Cfg) : ∀ n, OpsPN (opsN cfg n)
-  | 0 => ⟨crash_pn _, crash_pn _, crash_pn _, crash_pn _⟩
-  | n + 1 => mkOps_pn (opsN_pn cfg n)
 
 end Afkak.Proofs.Consumer
